@@ -48,7 +48,13 @@ pub fn run(args: &Args) -> i32 {
                 let syn::Data::Struct(data_struct) = &ds.data else { unreachable!() };
                 let syn::Data::Enum(data_enum) = &de.data else { unreachable!() };
                 let variant = &data_enum.variants[0];
-                let afields = ast::Fields::<syn::Field>::try_from(&data_struct.fields).expect("fields");
+                let afields = match ast::Fields::<syn::Field>::try_from(&data_struct.fields) {
+                    Ok(f) => f,
+                    Err(e) => {
+                        c.violation("C18:api:fields-conversion-failed", format!("ast::Fields::try_from fails on `{ssrc}`: {e}"), json!({"input": ssrc}));
+                        continue;
+                    }
+                };
                 // every AsShape implementor must give the table's verdict
                 let mut verdicts: Vec<(&str, bool, bool)> = vec![];
                 let mut probe = |name: &'static str, s: &ShapeSet, f: &dyn Fn(&ShapeSet) -> (bool, darling::Result<()>)| {
